@@ -8,34 +8,8 @@ import (
 	"strings"
 	"time"
 
-	"github.com/smart-core-os/sc-api/go/traits"
-	"github.com/smart-core-os/sc-api/go/types"
 	"github.com/smart-core-os/sc-golang/pkg/resource"
 	"github.com/smart-core-os/sc-golang/pkg/trait"
-	"github.com/smart-core-os/sc-golang/pkg/trait/accesspb"
-	"github.com/smart-core-os/sc-golang/pkg/trait/airqualitysensorpb"
-	"github.com/smart-core-os/sc-golang/pkg/trait/airtemperaturepb"
-	"github.com/smart-core-os/sc-golang/pkg/trait/bookingpb"
-	"github.com/smart-core-os/sc-golang/pkg/trait/countpb"
-	"github.com/smart-core-os/sc-golang/pkg/trait/electricpb"
-	"github.com/smart-core-os/sc-golang/pkg/trait/emergencypb"
-	"github.com/smart-core-os/sc-golang/pkg/trait/energystoragepb"
-	"github.com/smart-core-os/sc-golang/pkg/trait/enterleavesensorpb"
-	"github.com/smart-core-os/sc-golang/pkg/trait/fanspeedpb"
-	"github.com/smart-core-os/sc-golang/pkg/trait/hailpb"
-	"github.com/smart-core-os/sc-golang/pkg/trait/lightpb"
-	"github.com/smart-core-os/sc-golang/pkg/trait/metadatapb"
-	"github.com/smart-core-os/sc-golang/pkg/trait/meterpb"
-	"github.com/smart-core-os/sc-golang/pkg/trait/modepb"
-	"github.com/smart-core-os/sc-golang/pkg/trait/occupancysensorpb"
-	"github.com/smart-core-os/sc-golang/pkg/trait/onoffpb"
-	"github.com/smart-core-os/sc-golang/pkg/trait/openclosepb"
-	"github.com/smart-core-os/sc-golang/pkg/trait/parentpb"
-	"github.com/smart-core-os/sc-golang/pkg/trait/presspb"
-	"github.com/smart-core-os/sc-golang/pkg/trait/publicationpb"
-	"github.com/smart-core-os/sc-golang/pkg/trait/speakerpb"
-	"github.com/smart-core-os/sc-golang/pkg/trait/vendingpb"
-	"github.com/smart-core-os/sc-golang/pkg/trait/wastepb"
 	"github.com/smart-core-os/sc-golang/verifharness/vcoq"
 	"github.com/smart-core-os/sc-golang/verifharness/vmsg"
 	"google.golang.org/protobuf/proto"
@@ -43,55 +17,9 @@ import (
 	"google.golang.org/protobuf/types/known/fieldmaskpb"
 )
 
-// ---- every trait model / memory device, driven through its exported methods by reflection ----
-type modelSpec struct {
-	name string
-	mk   func() any
-}
+// ---- every target of targets.go, driven through its exported methods by reflection ----
 
 func pct(v float32) *float32 { return &v }
-
-var modelSpecs = []modelSpec{
-	{"accesspb.Model", func() any { return accesspb.NewModel() }},
-	{"airqualitysensorpb.Model", func() any { return airqualitysensorpb.NewModel() }},
-	{"airtemperaturepb.Model", func() any { return airtemperaturepb.NewModel() }},
-	{"airtemperaturepb.MemoryDevice", func() any { return airtemperaturepb.NewMemoryDevice() }},
-	{"bookingpb.Model", func() any { return bookingpb.NewModel() }},
-	{"countpb.MemoryDevice", func() any { return countpb.NewMemoryDevice() }},
-	{"electricpb.Model", func() any { return electricpb.NewModel() }},
-	{"emergencypb.MemoryDevice", func() any { return emergencypb.NewMemoryDevice() }},
-	{"energystoragepb.Model", func() any { return energystoragepb.NewModel() }},
-	{"enterleavesensorpb.Model", func() any {
-		var zero int32
-		return enterleavesensorpb.NewModel(enterleavesensorpb.WithInitialEnterLeaveEvent(&traits.EnterLeaveEvent{EnterTotal: &zero, LeaveTotal: &zero}))
-	}},
-	{"fanspeedpb.Model", func() any { return fanspeedpb.NewModel() }},
-	{"hailpb.Model", func() any { return hailpb.NewModel() }},
-	{"lightpb.Model", func() any {
-		return lightpb.NewModel(lightpb.WithPreset(10, &traits.LightPreset{Name: "a", Title: "A"}), lightpb.WithPreset(80, &traits.LightPreset{Name: "b", Title: "B"}))
-	}},
-	{"lightpb.MemoryDevice", func() any { return lightpb.NewMemoryDevice() }},
-	{"metadatapb.Model", func() any { return metadatapb.NewModel() }},
-	{"meterpb.Model", func() any { return meterpb.NewModel() }},
-	{"modepb.Model", func() any { return modepb.NewModel() }},
-	{"occupancysensorpb.Model", func() any { return occupancysensorpb.NewModel() }},
-	{"onoffpb.Model", func() any { return onoffpb.NewModel() }},
-	{"openclosepb.Model", func() any {
-		return openclosepb.NewModel(
-			openclosepb.WithPreset(&traits.OpenClosePositions_Preset{Name: "a", Title: "A"},
-				&traits.OpenClosePosition{OpenPercent: 10, Direction: traits.OpenClosePosition_UP}),
-			openclosepb.WithPreset(&traits.OpenClosePositions_Preset{Name: "b", Title: "B"},
-				&traits.OpenClosePosition{OpenPercent: 60, Direction: traits.OpenClosePosition_UP},
-				&traits.OpenClosePosition{OpenPercent: 70, Direction: traits.OpenClosePosition_DOWN}))
-	}},
-	{"openclosepb.Model(plain)", func() any { return openclosepb.NewModel() }},
-	{"parentpb.Model", func() any { return parentpb.NewModel() }},
-	{"presspb.Model", func() any { return presspb.NewModel(traits.PressedState_UNPRESSED) }},
-	{"publicationpb.Model", func() any { return publicationpb.NewModel() }},
-	{"speakerpb.MemoryDevice", func() any { return speakerpb.NewMemoryDevice(&types.AudioLevel{Gain: 10}) }},
-	{"vendingpb.Model", func() any { return vendingpb.NewModel() }},
-	{"wastepb.Model", func() any { return wastepb.NewModel() }},
-}
 
 var (
 	protoMsgType  = reflect.TypeOf((*proto.Message)(nil)).Elem()
@@ -110,7 +38,22 @@ func isProtoPtr(t reflect.Type) bool { return t.Kind() == reflect.Ptr && t.Imple
 var writePrefixes = []string{"Update", "Set", "Create", "Add", "Delete", "Remove", "Merge", "Reset", "Record", "Change",
 	"Dispense", "Generate", "Acknowledge", "Clear", "Stop", "Start", "Confirm", "Silence", "Save"}
 
+// the read-only operations of the property: Get, List, Pull (and its seed), Describe - and lookups
+var readPrefixes = []string{"Get", "List", "Pull", "Describe", "Has", "Find"}
+
+func hasReadPrefix(method string) bool {
+	for _, p := range readPrefixes {
+		if strings.HasPrefix(method, p) {
+			return true
+		}
+	}
+	return false
+}
+
 func isReadOnly(method string) bool {
+	if hasReadPrefix(method) {
+		return true
+	}
 	for _, p := range writePrefixes {
 		if strings.HasPrefix(method, p) {
 			return false
@@ -119,13 +62,24 @@ func isReadOnly(method string) bool {
 	return true
 }
 
+// a call the monitor brackets with state probes: named as a read, or an accessor without arguments
+// (Modes(), ActiveMode(), FanSpeed(opts...)); anything else (CheckInBooking, ReverseFanSpeedDirection,
+// Charge, DeriveValues ...) is treated as a write
+func bracketed(m reflect.Method) bool {
+	if hasReadPrefix(m.Name) {
+		return true
+	}
+	n := m.Type.NumIn() - 1
+	return isReadOnly(m.Name) && (n == 0 || (n == 1 && m.Type.IsVariadic()))
+}
+
 func supportedParam(t reflect.Type, variadic bool) bool {
 	if variadic {
 		e := t.Elem()
 		return e == readOptType || e == writeOptType || e == resOptType || e == traitNameType || isProtoPtr(e) || e.Kind() == reflect.String
 	}
 	switch {
-	case t == ctxType, isProtoPtr(t):
+	case t == ctxType, isProtoPtr(t), t == protoMsgType:
 		return true
 	case t.Kind() == reflect.String, t.Kind() == reflect.Bool, t.Kind() == reflect.Float32, t.Kind() == reflect.Float64:
 		return true
@@ -181,15 +135,19 @@ func (g *gen) randPaths(md protoreflect.MessageDescriptor) []string {
 // ---- one sequence on one model ----
 type modelRun struct {
 	g        *gen
-	spec     modelSpec
-	model    reflect.Value
+	spec     target
+	roots    []root
+	rvs      []reflect.Value
+	refs     []methRef
 	mon      monitor
 	owner    []string // per snapshot: the method whose argument it was (arguments only)
 	subs     []*collector
 	subName  []string
 	pool     []string
-	ints     []int64 // integers earlier calls returned (counts, indexes)
-	lastK    int
+	poolBy   map[string][]string  // string values seen in results, by field name (version, id, name ...)
+	lastRes  protoreflect.Message // the latest result / event value with an id or a name: follow-up calls refer to it
+	ints     []int64              // integers earlier calls returned (counts, indexes)
+	lastK    methRef
 	lastArgs []reflect.Value
 	lastPre  []proto.Message
 	lastDesc []string
@@ -240,6 +198,27 @@ func (mr *modelRun) cross(v reflect.Value, what string, isArg bool, depth int) {
 
 func (mr *modelRun) harvestStrings(m proto.Message) {
 	pm := m.ProtoReflect()
+	// every populated top-level string field, by its name: requests carrying a field of the same name
+	// (version, id, booking_id ...) are then given values that exist
+	if mr.poolBy == nil {
+		mr.poolBy = map[string][]string{}
+	}
+	pm.Range(func(fd protoreflect.FieldDescriptor, v protoreflect.Value) bool {
+		if fd.Kind() == protoreflect.StringKind && !fd.IsList() && !fd.IsMap() {
+			n := string(fd.Name())
+			if s := v.String(); s != "" && s != scrStr {
+				if len(mr.poolBy[n]) < 6 {
+					mr.poolBy[n] = append(mr.poolBy[n], s)
+				} else {
+					mr.poolBy[n][mr.g.r.Intn(6)] = s // keep recent values (versions change with every write)
+				}
+				if n == "id" || n == "name" {
+					mr.lastRes = pm
+				}
+			}
+		}
+		return true
+	})
 	for _, n := range []string{"id", "name", "title", "consumable"} {
 		if fd := pm.Descriptor().Fields().ByName(protoreflect.Name(n)); fd != nil && fd.Kind() == protoreflect.StringKind && !fd.IsList() {
 			if s := pm.Get(fd).String(); s != "" && s != scrStr && len(mr.pool) < 12 {
@@ -252,7 +231,15 @@ func (mr *modelRun) harvestStrings(m proto.Message) {
 // state: deep copies of what every argument-free read-only method returns
 func (mr *modelRun) state() []proto.Message {
 	var out []proto.Message
-	t := mr.model.Type()
+	for _, rv := range mr.rvs {
+		mr.stateOf(rv, &out)
+	}
+	return out
+}
+func (mr *modelRun) stateOf(model reflect.Value, outp *[]proto.Message) {
+	out := *outp
+	defer func() { *outp = out }()
+	t := model.Type()
 	for i := 0; i < t.NumMethod(); i++ {
 		m := t.Method(i)
 		ft := m.Type
@@ -265,12 +252,11 @@ func (mr *modelRun) state() []proto.Message {
 		}
 		func() {
 			defer func() { recover() }()
-			for _, r := range mr.model.Method(i).Call(nil) {
+			for _, r := range model.Method(i).Call(nil) {
 				collectMsgs(r, 0, &out)
 			}
 		}()
 	}
-	return out
 }
 func resultMsgTypeOfFunc(ft reflect.Type) reflect.Type {
 	for i := 0; i < ft.NumOut(); i++ {
@@ -338,37 +324,71 @@ func (mr *modelRun) randMsg(t reflect.Type) reflect.Value {
 			pm.Set(fd, protoreflect.ValueOfString(mr.str()))
 		}
 	}
+	// a follow-up call on the latest result: its id / name / version / ... copied by field name
+	fds := pm.Descriptor().Fields()
+	if mr.lastRes != nil && mr.lastRes.IsValid() && mr.g.r.Chance(50) {
+		lfs := mr.lastRes.Descriptor().Fields()
+		for i := 0; i < fds.Len(); i++ {
+			fd := fds.Get(i)
+			if fd.Kind() != protoreflect.StringKind || fd.IsList() || fd.IsMap() {
+				continue
+			}
+			lf := lfs.ByName(fd.Name())
+			if lf == nil && strings.HasSuffix(string(fd.Name()), "_id") {
+				lf = lfs.ByName("id")
+			}
+			if lf != nil && lf.Kind() == protoreflect.StringKind && !lf.IsList() && !lf.IsMap() && mr.lastRes.Has(lf) {
+				if v := mr.lastRes.Get(lf).String(); v != scrStr {
+					pm.Set(fd, protoreflect.ValueOfString(v))
+				}
+			}
+		}
+		mr.g.hist["follow-up call on the latest result"]++
+		return reflect.ValueOf(m)
+	}
+	// other string fields whose name has been seen in a result (version, booking_id -> id ...)
+	for i := 0; i < fds.Len(); i++ {
+		fd := fds.Get(i)
+		if fd.Kind() != protoreflect.StringKind || fd.IsList() || fd.IsMap() {
+			continue
+		}
+		n := string(fd.Name())
+		vals := mr.poolBy[n]
+		if len(vals) == 0 && strings.HasSuffix(n, "_id") {
+			vals = mr.poolBy["id"]
+		}
+		if n != "id" && n != "name" && len(vals) > 0 && mr.g.r.Chance(70) {
+			pm.Set(fd, protoreflect.ValueOfString(vals[mr.g.r.Intn(len(vals))]))
+		}
+	}
 	return reflect.ValueOf(m)
 }
 
 func (mr *modelRun) step(i int) {
 	g := mr.g
-	t := mr.model.Type()
-	var eligible []int
-	for k := 0; k < t.NumMethod(); k++ {
-		ft := t.Method(k).Type
-		ok := true
-		for p := 1; p < ft.NumIn(); p++ {
-			ok = ok && supportedParam(ft.In(p), ft.IsVariadic() && p == ft.NumIn()-1)
-		}
-		// streaming server methods (req, stream) and interceptor-shaped helpers are not API calls of the model
-		if ok && !(ft.NumIn() >= 3 && ft.In(1) == protoMsgType) {
-			eligible = append(eligible, k)
-		}
-	}
-	if len(eligible) == 0 {
+	if len(mr.refs) == 0 {
 		return
 	}
-	k := eligible[g.r.Intn(len(eligible))]
+	ref := mr.refs[g.r.Intn(len(mr.refs))]
 	// the same call again, with equal arguments (fresh copies of the messages): re-activating the active
 	// mode, re-adding the same child, ... are where "nothing to do" paths edit in place
 	repeat := mr.lastArgs != nil && g.r.Chance(30)
 	if repeat {
-		k = mr.lastK
+		ref = mr.lastK
 	}
-	meth := t.Method(k)
+	if ref.stream != nil {
+		mr.lastArgs = nil
+		mr.streamOp(i, ref)
+		return
+	}
+	k := ref.idx
+	model := mr.rvs[ref.root]
+	meth := model.Type().Method(k)
 	ft := meth.Type
-	readOnly := isReadOnly(meth.Name)
+	readOnly := bracketed(meth) && !mr.spec.isAsync()
+	if readOnly {
+		g.bracketedMethods[ref.owner+"."+meth.Name] = true
+	}
 	resT := resultMsgTypeOfFunc(ft)
 	var args []reflect.Value
 	var msgArgs []reflect.Value
@@ -443,8 +463,18 @@ func (mr *modelRun) step(i int) {
 		case pt == ctxType:
 			ctx, cancel = context.WithCancel(context.Background())
 			args = append(args, reflect.ValueOf(ctx))
+		case pt == protoMsgType:
+			// an exported interceptor (fanspeedpb.Model.DeriveValues(old, new)): messages of the type the model's getters return
+			ct := mainMsgType(model)
+			if ct == nil {
+				ct = reflect.TypeOf(&fieldmaskpb.FieldMask{})
+			}
+			v := mr.randMsg(ct)
+			args, msgArgs = append(args, v), append(msgArgs, v)
+			desc = append(desc, txt(v.Interface().(proto.Message)))
 		case isProtoPtr(pt):
 			v := mr.randMsg(pt)
+			mr.fixMasks(v.Interface().(proto.Message), resT)
 			args, msgArgs = append(args, v), append(msgArgs, v)
 			desc = append(desc, txt(v.Interface().(proto.Message)))
 		case pt.Kind() == reflect.String:
@@ -472,7 +502,7 @@ func (mr *modelRun) step(i int) {
 		}
 	}
 	if !repeat {
-		mr.lastK, mr.lastArgs, mr.lastDesc = k, args, desc
+		mr.lastK, mr.lastArgs, mr.lastDesc = ref, args, desc
 		mr.lastPre = make([]proto.Message, len(args))
 		for idx, a := range args {
 			if isProtoPtr(a.Type()) && !a.IsNil() {
@@ -480,10 +510,11 @@ func (mr *modelRun) step(i int) {
 			}
 		}
 	}
-	full := mr.spec.name + "." + meth.Name
+	full := ref.owner + "." + meth.Name
 	call := fmt.Sprintf("op %d %s(%s)", i, meth.Name, strings.Join(desc, ", "))
 	mr.log = append(mr.log, call)
 	g.hist["model:"+mr.spec.name]++
+	g.methodCalls[full]++
 	var before []proto.Message
 	if readOnly {
 		before = mr.state()
@@ -496,7 +527,7 @@ func (mr *modelRun) step(i int) {
 				mr.log[len(mr.log)-1] += fmt.Sprintf(" -> panic: %v", r)
 			}
 		}()
-		results = mr.model.Method(k).Call(args)
+		results = model.Method(k).Call(args)
 		return false
 	}()
 	if panicked {
@@ -573,7 +604,7 @@ func (mr *modelRun) step(i int) {
 			mr.log = append(mr.log, fmt.Sprintf("caller rewrites %s", mr.mon.snaps[ai].what))
 			g.hist["caller rewrites an argument"]++
 			who := mr.mon.snaps[ai].what[strings.LastIndex(mr.mon.snaps[ai].what, " of ")+4:]
-			if st1 := mr.state(); !sameState(st0, st1) {
+			if st1 := mr.state(); !mr.spec.isAsync() && !sameState(st0, st1) {
 				mr.direct("argument-retained:"+who, fmt.Sprintf("rewriting a message after %s returned changes the stored state", who))
 			}
 			for _, ci := range mr.mon.changed() {
@@ -590,7 +621,13 @@ func (mr *modelRun) step(i int) {
 // readAll performs every argument-free read of the model and keeps what it returns (the monitor as a
 // reader: results of Modes(), ListChildren(), GetX() ... are held and re-compared like any other result)
 func (mr *modelRun) readAll(i int) {
-	t := mr.model.Type()
+	for _, rv := range mr.rvs {
+		mr.readAllOf(i, rv)
+	}
+	mr.g.hist["monitor reads all getters"]++
+}
+func (mr *modelRun) readAllOf(i int, model reflect.Value) {
+	t := model.Type()
 	for k := 0; k < t.NumMethod(); k++ {
 		m := t.Method(k)
 		ft := m.Type
@@ -600,19 +637,42 @@ func (mr *modelRun) readAll(i int) {
 		}
 		func() {
 			defer func() { recover() }()
-			for ri, r := range mr.model.Method(k).Call(nil) {
+			for ri, r := range model.Method(k).Call(nil) {
 				if r.Type() != errorType {
 					mr.cross(r, fmt.Sprintf("%s (monitor read) result %d of %s.%s", callTag(i), ri, mr.spec.name, m.Name), false, 0)
 				}
 			}
 		}()
 	}
-	mr.g.hist["monitor reads all getters"]++
+}
+
+// the message type the argument-free getters of a model return
+func mainMsgType(model reflect.Value) reflect.Type {
+	t := model.Type()
+	for k := 0; k < t.NumMethod(); k++ {
+		ft := t.Method(k).Type
+		n := ft.NumIn() - 1
+		if isReadOnly(t.Method(k).Name) && !strings.HasPrefix(t.Method(k).Name, "Pull") && (n == 0 || (n == 1 && ft.IsVariadic())) {
+			if r := resultMsgTypeOfFunc(ft); r != nil {
+				return r
+			}
+		}
+	}
+	return nil
 }
 
 func callTag(i int) string { return fmt.Sprintf("op %d", i) }
 
+// at most 4 open subscriptions: the oldest is cancelled (its events so far have been taken)
+func (mr *modelRun) capSubs() {
+	for len(mr.subs) > 4 {
+		mr.subs[0].cancel()
+		mr.subs, mr.subName = mr.subs[1:], mr.subName[1:]
+	}
+}
+
 func (mr *modelRun) drain() {
+	mr.capSubs()
 	for si, c := range mr.subs {
 		for _, e := range c.takeQuiet(120 * time.Microsecond) {
 			mr.cross(reflect.ValueOf(e), "event of "+mr.subName[si], false, 0)
@@ -627,20 +687,24 @@ func (mr *modelRun) report(full, call string) {
 	}
 }
 
-func numMethods(spec modelSpec) (n int) {
+func numMethods(spec target) (n int) {
 	defer func() { recover() }()
-	return reflect.TypeOf(spec.mk()).NumMethod()
+	return len(methodRefs(spec.mk()))
 }
 
-func (g *gen) modelSeq(spec modelSpec, nOps int) {
+func (g *gen) modelSeq(spec target, nOps int) {
 	mr := &modelRun{g: g, spec: spec, seen: map[string]bool{}}
 	func() {
 		defer func() { recover() }()
-		mr.model = reflect.ValueOf(spec.mk())
+		mr.roots = spec.mk()
 	}()
-	if !mr.model.IsValid() {
+	if len(mr.roots) == 0 {
 		return
 	}
+	for _, r := range mr.roots {
+		mr.rvs = append(mr.rvs, reflect.ValueOf(r.v))
+	}
+	mr.refs = methodRefs(mr.roots)
 	defer func() {
 		for _, c := range mr.subs {
 			c.cancel()
@@ -650,6 +714,8 @@ func (g *gen) modelSeq(spec modelSpec, nOps int) {
 		mr.step(i)
 	}
 	g.modelOps += nOps
+	g.targetOps[spec.name] += nOps
+	g.targetRuns[spec.name]++
 }
 
 func sortedKeys(m map[string]int) []string {
